@@ -201,6 +201,47 @@ def write (io : Io) (a : Addr) (v : Value) : Except Err Io :=
     | .lword, .lword x => .ok (io.setArea a.area (putBytes buf a.byte (toLe 8 x)))
     | _, _ => .error .typeMismatch
 
+/-! ## Vocabulary of the specification (used by the theorem statements only) -/
+
+/-- A flat address: not a wildcard and not hierarchical — it denotes bytes of an image. -/
+def Addr.flat (a : Addr) : Bool := !a.wildcard && decide (a.path.length ≤ 1)
+
+/-- An address as `IoAddress::parse` produces them: flat, and the bit index of an `X` address is 0..7. -/
+def Addr.valid (a : Addr) : Bool := a.flat && (a.size != .bit || decide (a.bit ≤ 7))
+
+/-- Does byte index `j` belong to the span `[byte, byte + size)` the address denotes? -/
+def Addr.inSpan (a : Addr) (j : Nat) : Bool := decide (a.byte ≤ j) && decide (j < a.byte + a.size.bytes)
+
+/-- Two flat addresses denote disjoint storage: different areas, disjoint byte spans, or two
+different bits of the same byte. -/
+def Addr.disjoint (a b : Addr) : Bool :=
+  a.area != b.area || decide (a.byte + a.size.bytes ≤ b.byte) || decide (b.byte + b.size.bytes ≤ a.byte) ||
+  (a.size == .bit && b.size == .bit && a.byte == b.byte && a.bit != b.bit)
+
+/-- Every byte of the three images is a byte. -/
+def Io.WF (io : Io) : Prop := ∀ ar : Area, ∀ b ∈ io.area ar, b < 256
+
+/-- The I/O value of an address size with payload `n` (`Value::Byte(n)`, `Value::Word(n)`, …). -/
+def Size.mk : Size → Nat → Value
+  | .bit, n => .bool (n == 1)
+  | .byte, n => .byte n
+  | .word, n => .word n
+  | .dword, n => .dword n
+  | .lword, n => .lword n
+
+/-- The size whose I/O value type `v` is, if any. -/
+def Value.ioSize : Value → Option Size
+  | .bool _ => some .bit | .byte _ => some .byte | .word _ => some .word
+  | .dword _ => some .dword | .lword _ => some .lword | _ => none
+
+/-- The bytes a flat non-bit write stores. -/
+def storedBytes : Size → Value → Option (List Nat)
+  | .byte, .byte x => some [x]
+  | .word, .word x => some (toLe 2 x)
+  | .dword, .dword x => some (toLe 4 x)
+  | .lword, .lword x => some (toLe 8 x)
+  | _, _ => none
+
 /-! ## Typed bindings: `coerce_from_io`, `coerce_to_io` -/
 
 /-- The elementary `TypeId`s the coercions know; anything else is `other`. -/
